@@ -69,7 +69,9 @@ def run(ctx):
         rnd = case.rnd
         pool = auxgen.Pool(gtirb, rnd)
         for _ in range(20):
-            t, v = codecmon.gen_case(rnd, pool, java_bias=0.4)
+            t, v = codecmon.gen_case(
+                rnd, pool, java_bias=0.4, big=ctx.tier == "thorough"
+                and rnd.random() < 0.01)
             tn = reftypes.show(t)
             case.ops = [{"type": tn, "value": auxgen.describe(v, t)}]
             ctx.count("cases")
